@@ -45,10 +45,10 @@ ASSUMPTIONS = [
     'floats compared at rtol 1e-10 (same code on same inputs; slack only for summation order inside the engine)',
     'receivers are the classes of the package (walk of __subclasses__); user-defined subclasses are not generated',
 ]
-MIN_DISTINCT = {'quick': 900, 'thorough': 4000}
+MIN_DISTINCT = {'quick': 1000, 'thorough': 4500}
 CASE_TIMEOUT = 300
 
-REPS = {'quick': 1, 'thorough': 5}
+REPS = {'quick': 1, 'thorough': 3}
 
 EXPR_ROOT = 'biogeme.expressions.base_expressions.Expression'
 
@@ -65,7 +65,7 @@ def cases(seed, tier):
     for rep in range(REPS[tier]):
         for a in d['aliases']:
             for r in a['receivers']:
-                out.append({'t': 'alias', 'module': a['module'], 'owner': a['owner'], 'name': a['name'], 'recv': r, 'seed': seed, 'rep': rep})
+                out.append({'t': 'alias', 'module': a['module'], 'owner': a['owner'], 'name': a['name'], 'recv': r, 'seed': seed, 'rep': rep, 'tier': tier})
         for p in d['params']:
             for old_kw in sorted(p['mapping']):
                 for r in p['receivers']:
@@ -75,7 +75,7 @@ def cases(seed, tier):
                             and int(hashlib.sha1(f'{seed}|{p["name"]}|{old_kw}|{r}'.encode()).hexdigest()[:6], 16) % 3:
                         continue
                     out.append({'t': 'param', 'module': p['module'], 'owner': p['owner'], 'name': p['name'], 'kw': old_kw, 'recv': r,
-                                'seed': seed, 'rep': rep})
+                                'seed': seed, 'rep': rep, 'tier': tier})
     # heavy cases (estimation) first so that the shards finish together
     heavy = ('BIOGEME', 'bioResults', 'results', 'multiobjectives')
     out.sort(key=lambda c: 0 if _short(c['owner'], c['module']) in heavy else 1)
@@ -112,6 +112,18 @@ def selftest():
     from ..oracle import c20_observe as ob
 
     bad = list(cmp.selftest())
+    with ob.scratch():
+        bad += _selftest_monitors()
+    return bad
+
+
+def _selftest_monitors():
+    import functools
+    import warnings
+
+    from ..oracle import c20_observe as ob
+
+    bad = []
 
     class Box:
         def __init__(self):
@@ -207,9 +219,18 @@ def _fixture_id(v):
     from ..oracle import c20_compare as cmp
 
     try:
-        return stable_hash([v['label'], cmp.normalise([v.get('args'), v.get('kwargs')])])
+        return stable_hash([v['label'], cmp.normalise([v.get('recv'), v.get('args'), v.get('kwargs')])])
     except BaseException:  # noqa
         return stable_hash([v['label']])
+
+
+def _obs(rec, call, subdir, codes):
+    from ..oracle import c20_observe as ob
+
+    r = ob.observe(call, subdir, codes, CASE_TIMEOUT / 4)
+    if r.get('retries_after_native_crash'):
+        rec.c('engine_native_crash_retries', r['retries_after_native_crash'])
+    return r
 
 
 def _check_warnings(obs_old, obs_new, pattern_ok, what):
@@ -243,10 +264,13 @@ def _check_warnings(obs_old, obs_new, pattern_ok, what):
 def run_case(case):
     import warnings
 
+    from ..oracle import c20_observe as ob
+
     warnings.simplefilter('ignore')
-    if case['t'] == 'alias':
-        return _run_alias(case)
-    return _run_param(case)
+    with ob.scratch():
+        if case['t'] == 'alias':
+            return _run_alias(case)
+        return _run_param(case)
 
 
 def _run_alias(case):
@@ -308,6 +332,8 @@ def _run_alias(case):
         rec.inconc(f'no fixture for alias {pair} (replacement {declared})')
         return rec.out()
 
+    if case.get('tier') == 'quick' and _is_expr_family(owner):
+        variants = variants[:2]  # the thorough tier runs every variant
     codes, recv_first = _watch_codes(recv_cls, module, declared)
     compared = 0
     rule_done = False
@@ -326,7 +352,7 @@ def _run_alias(case):
             continue
         state = v['state'] if v.get('state') is not None else [recv, list(v['args']), v['kwargs']]
         call = dict(args=v['args'], kwargs=v['kwargs'], post=v.get('post'), state=state, files=v.get('files'))
-        o = ob.observe(dict(call, fn=old_fn), f'a{i}_old', codes, CASE_TIMEOUT / 4)
+        o = _obs(rec, dict(call, fn=old_fn), f'a{i}_old', codes)
         if 'returned' not in o:
             rec.inconc(f'{pair}/{v["label"]}: observation of the old name failed: {str(o)[:200]}')
             continue
@@ -350,7 +376,7 @@ def _run_alias(case):
                                                                                      f'{case["module"]} has it', wit)
             continue
         rec.c('replacement_resolved_' + how)
-        n = ob.observe(dict(call, fn=new_fn), f'a{i}_new', codes, CASE_TIMEOUT / 4)
+        n = _obs(rec, dict(call, fn=new_fn), f'a{i}_new', codes)
         if 'returned' not in n:
             rec.inconc(f'{pair}/{v["label"]}: observation of the replacement failed: {str(n)[:200]}')
             continue
@@ -410,7 +436,7 @@ def _run_alias(case):
                 rec.c('name_rule_flagged')
                 b = better[0]
                 b_fn = getattr(recv if (recv_cls is not None and not on_class) else ns, b)
-                ob_b = ob.observe(dict(call, fn=b_fn), f'a{i}_better', codes, CASE_TIMEOUT / 4)
+                ob_b = _obs(rec, dict(call, fn=b_fn), f'a{i}_better', codes)
                 if ob_b.get('returned'):
                     rec.ev()
                     db = ob.compare(o, ob_b)
@@ -497,7 +523,7 @@ def _run_param(case):
         kw_old = dict(v['kwargs'])
         kw_old[old_kw] = v['value']
         base = dict(fn=fn, args=tuple(v['args']), post=v.get('post'), state=state, files=v.get('files'))
-        o = ob.observe(dict(base, kwargs=kw_old), f'p{i}_old', [code], CASE_TIMEOUT / 4)
+        o = _obs(rec, dict(base, kwargs=kw_old), f'p{i}_old', [code])
         if 'returned' not in o:
             rec.inconc(f'{trip}: observation with the old keyword failed: {str(o)[:200]}')
             continue
@@ -508,15 +534,27 @@ def _run_param(case):
         if new_kw:
             kw_new[new_kw] = v['value']
             rec.c('keyword_renamed')
+            # the keyword the warning recommends must be one the function has
+            try:
+                ps = inspect.signature(inspect.unwrap(wrapper)).parameters
+                open_kw = any(p.kind == p.VAR_KEYWORD for p in ps.values())
+                if new_kw not in ps and not open_kw:
+                    rec.violation(f'C20/keyword-named-in-warning-is-not-a-parameter/{short}',
+                                  f'{trip}: the warning says "use {new_kw}=..." but {func}{tuple(ps)} has no such parameter',
+                                  {'keyword': trip, 'new_keyword_named_in_warning': new_kw, 'parameters': list(ps)})
+                else:
+                    rec.c('recommended_keyword_is_a_parameter' if new_kw in ps else 'recommended_keyword_goes_to_var_keywords')
+            except (TypeError, ValueError):
+                pass
         else:
             rec.c('keyword_declared_ignored')
-        n = ob.observe(dict(base, kwargs=kw_new), f'p{i}_new', [code], CASE_TIMEOUT / 4)
+        n = _obs(rec, dict(base, kwargs=kw_new), f'p{i}_new', [code])
         if 'returned' not in n:
             rec.inconc(f'{trip}: observation with the new keyword failed: {str(n)[:200]}')
             continue
         rec.ev()
         compared += 1
-        rec.key([trip, v['label'], stable_hash([W.seed])])
+        rec.key([trip, v['label'], _fixture_id(dict(v, args=list(v['args']) + [v['value']]))])
         rec.c('outcome_both_return' if o['returned'] and n['returned'] else ('outcome_both_raise' if not o['returned'] and not n['returned'] else 'outcome_mixed'))
         wit = {'keyword': trip, 'new_keyword_named_in_warning': new_kw, 'old': _trim(o), 'new': _trim(n)}
         if i == 0:
